@@ -39,6 +39,12 @@ pub fn count_spaces_after_last_newline(s: &str, i: usize) -> usize {
     }
 }
 
+/// The column (in characters) of the byte position `i` in its line.
+pub fn column_at(s: &str, i: usize) -> usize {
+    let line_start = s[..i].rfind('\n').map_or(0, |pos| pos + 1);
+    s[line_start..i].chars().count()
+}
+
 #[cfg(test)]
 mod tests {
     use super::*;
